@@ -169,6 +169,23 @@ Definition notify (items : list (N * item)) (sp : space) (n : nid) : space :=
   fold_left (fun sp0 (e : N * item) =>
                if snd (it_node (snd e)) =? snd n then fst (read_one sp0 (n, it_attr (snd e))) else sp0) items sp.
 
+(* ... and what it hands to the subscriptions' workers: (item id, the DataValue just read) for every item on the node.
+   The value goes through NodeNameSpace.Attribute, i.e. through the CurrentRead check, like a Read. *)
+Fixpoint notify_vals (items : list (N * item)) (sp : space) (n : nid) : space * list (N * dval) :=
+  match items with
+  | [] => (sp, [])
+  | e :: t => if snd (it_node (snd e)) =? snd n
+              then let '(sp1, d) := read_one sp (n, it_attr (snd e)) in
+                   let '(sp2, l) := notify_vals t sp1 n in (sp2, (fst e, d) :: l)
+              else notify_vals t sp n
+  end.
+
+(* CreateMonitoredItems starts `go s.ChangeNotification(node)` for every new item: the initial notifications.  They read
+   like any other notification (and so may rewrite a stored uint32 NodeClass); the harness lets them finish before the
+   next request, the model runs them with the handler. *)
+Definition notify_all (items : list (N * item)) (sp : space) (l : list (nid * N)) : space :=
+  fold_left (fun sp0 (na : nid * N) => notify items sp0 (fst na)) l sp.
+
 Fixpoint srv_write_all (items : list (N * item)) (sp : space) (l : list (nid * N * dval)) : space * list N :=
   match l with
   | [] => (sp, [])
@@ -271,7 +288,7 @@ Definition dispatch (fuel : nat) (s : srv) (chan : N) (tok : token) (r : req) : 
         | Some _ =>
           if owner_is (sub_owner sb) tok then
             let '(items, ctr, ids) := create_items (sv_items s) (sv_item_ctr s) sub (sub_owner sb) l in
-            (set_items s items ctr, OCreateItems ids)
+            (set_space (set_items s items ctr) (notify_all items (sv_space s) l), OCreateItems ids)
           else (s, OFault StBadUnexpectedError)
         end
       end
